@@ -48,6 +48,27 @@ axiom('rmul.at', forall([r_, q_, i_], T.rat(rmul(r_, q_), i_) == T.rmul(T.rat(r_
                         [T.rat(rmul(r_, q_), i_)]), ['rmul'], 'numpy')
 
 
+# np.isclose with its default tolerances: |a - b| <= atol + rtol * |b|  (exact over the reals, A1)
+RTOL, ATOL = z3.RealVal('1/100000'), z3.RealVal('1/100000000')
+y_ = z3.Real('y')
+isclosef = F('isclose', Real, Real, Bool)
+axiom('isclose.def', forall([x_, y_], isclosef(x_, y_) ==
+                            (z3.If(x_ - y_ >= 0, x_ - y_, y_ - x_) <= ATOL + RTOL * z3.If(y_ >= 0, y_, -y_)),
+                            [isclosef(x_, y_)]), ['isclose'], 'numpy')
+closemask = F('closemask', RSeq, Real, BSeq)
+axiom('closemask.len', forall([r_, x_], T.blen(closemask(r_, x_)) == T.rlen(r_), [closemask(r_, x_)]), ['closemask'], 'numpy')
+axiom('closemask.at', forall([r_, x_, i_], T.bat(closemask(r_, x_), i_) == isclosef(T.rat(r_, i_), x_),
+                             [T.bat(closemask(r_, x_), i_)]), ['closemask'], 'numpy')
+m_ = z3.Const('m', BSeq)
+n_ = z3.Const('n', BSeq)
+bor = F('bor', BSeq, BSeq, BSeq)
+band = F('band', BSeq, BSeq, BSeq)
+for nm, fn, op in (('bor', bor, z3.Or), ('band', band, z3.And)):
+    axiom(nm + '.len', forall([m_, n_], T.blen(fn(m_, n_)) == T.blen(m_), [fn(m_, n_)]), [nm], 'numpy')
+    axiom(nm + '.at', forall([m_, n_, i_], T.bat(fn(m_, n_), i_) == op(T.bat(m_, i_), T.bat(n_, i_)),
+                             [T.bat(fn(m_, n_), i_)]), [nm], 'numpy')
+
+
 def np_compare(lib, run, op, a, b):
     if isinstance(a, SeqV) and a.kind == 'A' and isinstance(b, ArmV) and op == 'Eq':
         return SeqV('B', T.eqmask(a.term, b.term))
@@ -64,4 +85,6 @@ def np_compare(lib, run, op, a, b):
 
 def np_binop(lib, run, op, a, b, inplace=False):
     from . import liblinalg
+    if isinstance(a, SeqV) and isinstance(b, SeqV) and a.kind == b.kind == 'B' and op in ('BitOr', 'BitAnd'):
+        return SeqV('B', (bor if op == 'BitOr' else band)(a.term, b.term))
     return liblinalg.binop(lib, run, op, a, b, inplace)
